@@ -83,6 +83,13 @@ func genCondHist(r *rand.Rand, id string, tier string) string {
 		maxOps = 14
 	}
 	var ops []string
+	if r.Intn(6) == 0 {
+		// a Stack is already the expression when no-nesting is switched on: another Stack (any form) is still refused
+		stk := func() string {
+			return V{T: 'K', Form: []string{"n", "a", "as", "p"}[r.Intn(4)], Cfg: Cfg{Kind: 1 + r.Intn(4)}, Xs: []V{{T: 'i', I: int64(r.Intn(9))}}}.String()
+		}
+		ops = append(ops, "err 0", "nnest 0", "ex "+stk(), "nnest 1", "ex "+stk())
+	}
 	for i, n := 0, r.Intn(maxOps+1); i < n; i++ {
 		switch r.Intn(14) {
 		case 0, 1:
